@@ -25,7 +25,7 @@ from .core import Relation, err_kind
 
 PROP = "C17"
 CLAIMED = False
-COQ_MODULES = ["PearsonQ", "C17_Model", "C17_Check", "C17_Proofs"]
+COQ_MODULES = ["PearsonQ", "C17_Model", "C17_Check", "C17_Proofs", "C17_ProofsExact"]
 PROPERTY_MODULE = "C17_Property"
 ALLOWED_AXIOMS = []
 RULE = (
@@ -55,9 +55,9 @@ HIPSTR_HDR = (
 )
 P_POOL = ["0", "1e-300", "1e-10", "0.00005", "0.0001", "0.0001", "0.00011", "0.001", "0.001", "0.005", "0.01", "0.01",
           "0.011", "0.05", "0.5", "0.99", "1", "1.0", "2e-5", "3.5e-4"]
-P1_POOL = ["0.0001", "0.001", "0.01", "0.05", "0.5", "1"]
+P1_POOL = ["0.0001", "0.001", "0.01", "0.01", "0.05", "0.05", "0.5", "0.5", "1", "1", "1.5"]
 P2_POOL = ["0.01", "0.05", "1", "0.001", "0.5"]
-KB_POOL = ["0.05", "0.1", "0.25", "1", "2.5", "250"]
+KB_POOL = ["0.05", "0.05", "0.1", "0.1", "0.25", "0.25", "1", "1", "2.5", "2.5", "250", "250", "0"]
 R2_POOL = ["0.5", "0.2", "0.8", "0", "0.99", "0.01", "-0.1", "0.3"]
 FIELDS = [{"id": "SNP", "p": "P", "chrom": "CHR", "pos": "POS"},
           {"id": "ID", "p": "p-value", "chrom": "CHROM", "pos": "position"},
@@ -120,7 +120,11 @@ def gen_clump(rng):
             if base > 0 and (c, base) not in used:
                 used.add((c, base))
                 return base
-        raise RuntimeError("no position")
+        while True:
+            base = int(rng.integers(900, 1200))
+            if (c, base) not in used:
+                used.add((c, base))
+                return base
 
     n = int(rng.integers(3, 13))
     names = [f"s{int(x):02d}" for x in rng.permutation(40)[: n + 4]]
@@ -167,7 +171,10 @@ def gen_clump(rng):
             vars_.append({"id": f"str{j}", "chrom": c, "pos": new_pos(c), "motif": motif, "ref_n": ref_n,
                           "alt_ns": alt_ns, "calls": calls})
         vars_.sort(key=lambda v: (chroms.index(v["chrom"]), v["pos"]))
-        strs = {"samples": str_samples, "vars": vars_}
+        strs = {"samples": str_samples, "vars": vars_, "fmt": "pgen" if rng.random() < 0.25 else "vcf"}
+        if strs["fmt"] == "pgen":
+            for v in vars_:  # a PGEN call is missing as a whole
+                v["calls"] = [[255, 255] if max(c) >= 254 else c for c in v["calls"]]
     fields = dict(FIELDS[int(rng.integers(0, len(FIELDS)))])
 
     def table(vars_):
@@ -183,7 +190,9 @@ def gen_clump(rng):
     cfg = {"snp": snp, "str": strs, "stats_snp": table(snp["vars"]) if snp else None,
            "stats_str": table(strs["vars"]) if strs else None, "fields": fields,
            "p1": str(rng.choice(P1_POOL)), "p2": str(rng.choice(P2_POOL)), "kb": kb, "r2": str(rng.choice(R2_POOL)),
-           "ld": ld, "kind": "wellformed"}
+           "ld": ld, "kind": "wellformed", "via": "cli" if rng.random() < 0.2 else "api"}
+    if strs and any(all(max(c) >= 254 for c in v["calls"]) for v in strs["vars"]) and rng.random() < 0.6:
+        cfg["r2"] = "0"  # no valid sample: ComputeLD returns exactly 0, which does not exceed a threshold of 0
     # malformed / special streams
     r = rng.random()
     tabs = [t for t in (cfg["stats_snp"], cfg["stats_str"]) if t]
@@ -248,6 +257,8 @@ def _avoid_threshold(cfg):
     al = {k: [c[s.index(x)] for x in shared] for k, (s, c) in calls.items()}
     vals = set()
     for a, b in itertools.combinations_with_replacement(sorted(al), 2):
+        if not any(max(x) < 254 and max(y) < 254 for x, y in zip(al[a], al[b])):
+            continue  # no sample left: ComputeLD returns the integer 0, compared exactly
         v = exact_r2(al[a], al[b])
         if v is not None:
             vals.add(v)
@@ -259,6 +270,32 @@ def _avoid_threshold(cfg):
     if k:
         cfg["r2"] = str(float(thr)) if thr.denominator in (1, 2, 4, 5, 8, 10) else f"{float(thr):.3f}"
         assert Fraction(cfg["r2"]) == thr, (cfg["r2"], thr)
+
+
+def write_pgen_tr(base, samples, vars_):
+    """STR genotypes as PLINK2 files written with pgenlib directly (GenotypesPLINKTR cannot write);
+    the .pvar carries the HipSTR-style header and INFO fields TRTools needs"""
+    import pgenlib
+
+    with open(base + ".psam", "w") as f:
+        f.write("#IID\n" + "\n".join(samples) + "\n")
+    with open(base + ".pvar", "w") as f:
+        f.write("##fileformat=VCFv4.2\n" + HIPSTR_HDR)
+        for c in dict.fromkeys(v["chrom"] for v in vars_):
+            f.write(f"##contig=<ID={c}>\n")
+        f.write("#CHROM\tPOS\tID\tREF\tALT\tQUAL\tFILTER\tINFO\n")
+        for v in vars_:
+            per = len(v["motif"])
+            f.write(f"{v['chrom']}\t{v['pos']}\t{v['id']}\t{v['motif'] * v['ref_n']}\t"
+                    + ",".join(v["motif"] * k for k in v["alt_ns"])
+                    + f"\t.\t.\tSTART={v['pos']};END={v['pos'] + per * v['ref_n'] - 1};PERIOD={per}\n")
+    maxa = max(len(v["alt_ns"]) + 1 for v in vars_)
+    with pgenlib.PgenWriter(filename=bytes(base + ".pgen", "utf8"), sample_ct=len(samples), variant_ct=len(vars_),
+                            allele_ct_limit=maxa, nonref_flags=False, hardcall_phase_present=True) as w:
+        for v in vars_:
+            arr = np.array([(-9 if x >= 254 else x) for g in v["calls"] for x in g], dtype=np.int32)
+            w.append_alleles(arr, all_phased=True, allele_ct=len(v["alt_ns"]) + 1)
+    return base + ".pgen"
 
 
 def _write_inputs(cfg, d):
@@ -283,8 +320,11 @@ def _write_inputs(cfg, d):
                          ",".join(v["motif"] * k for k in v["alt_ns"]),
                          f"START={v['pos']};END={v['pos'] + per * v['ref_n'] - 1};PERIOD={per}",
                          [gt_string(a, b) for a, b in v["calls"]]))
-        paths["gts_strs"] = write_vcf(os.path.join(d, "strs.vcf"), s["samples"], recs, header_extra=HIPSTR_HDR,
-                                      contigs=list(dict.fromkeys(v["chrom"] for v in s["vars"])))
+        if s.get("fmt") == "pgen":
+            paths["gts_strs"] = write_pgen_tr(os.path.join(d, "strs"), s["samples"], s["vars"])
+        else:
+            paths["gts_strs"] = write_vcf(os.path.join(d, "strs.vcf"), s["samples"], recs, header_extra=HIPSTR_HDR,
+                                          contigs=list(dict.fromkeys(v["chrom"] for v in s["vars"])))
     for key, tab in (("summstats_snps", cfg["stats_snp"]), ("summstats_strs", cfg["stats_str"])):
         if tab:
             p = os.path.join(d, key + ".linear")
@@ -320,7 +360,7 @@ class Clump(Relation):
     coq_case_type = "ccase"
     coq_model = "model_clump"
     coq_imports = ["PearsonQ", "C17_Model"]
-    budget = {"quick": 350, "thorough": 6000}
+    budget = {"quick": 500, "thorough": 8000}
     max_cases_per_shard = 50
     timeout_per_case = 40
     anchors = [("haptools/clump.py", "SummaryStats.Load"), ("haptools/clump.py", "SummaryStats.GetNextIndexVariant"),
@@ -381,11 +421,30 @@ class Clump(Relation):
             cl.LoadVariant, cl.ComputeLD = load, compute
             out = os.path.join(d, "out.clump")
             try:
-                cl.clumpstr(paths["summstats_snps"], paths["summstats_strs"], paths["gts_snps"], paths["gts_strs"],
-                            float(cfg["p1"]), float(cfg["p2"]), cfg["fields"]["id"], cfg["fields"]["p"],
-                            cfg["fields"]["chrom"], cfg["fields"]["pos"], float(cfg["kb"]), float(cfg["r2"]),
-                            cfg["ld"], out, getLogger("hv17", "CRITICAL"))
-            except Exception as e:  # noqa
+                if cfg.get("via") == "cli":
+                    from click.testing import CliRunner
+                    from haptools.__main__ import main
+
+                    args = ["clump", "--verbosity", "CRITICAL", "--out", out, "--ld", cfg["ld"],
+                            "--clump-p1", cfg["p1"], "--clump-p2", cfg["p2"], "--clump-kb", cfg["kb"],
+                            "--clump-r2", cfg["r2"], "--clump-id-field", cfg["fields"]["id"],
+                            "--clump-field", cfg["fields"]["p"], "--clump-chrom-field", cfg["fields"]["chrom"],
+                            "--clump-pos-field", cfg["fields"]["pos"]]
+                    for opt, key in (("--summstats-snps", "summstats_snps"), ("--summstats-strs", "summstats_strs"),
+                                     ("--gts-snps", "gts_snps"), ("--gts-strs", "gts_strs")):
+                        if paths[key]:
+                            args += [opt, paths[key]]
+                    res = CliRunner().invoke(main, args, catch_exceptions=True)
+                    if res.exception is not None and not (isinstance(res.exception, SystemExit) and res.exception.code in (0, None)):
+                        raise res.exception
+                else:
+                    cl.clumpstr(paths["summstats_snps"], paths["summstats_strs"], paths["gts_snps"], paths["gts_strs"],
+                                float(cfg["p1"]), float(cfg["p2"]), cfg["fields"]["id"], cfg["fields"]["p"],
+                                cfg["fields"]["chrom"], cfg["fields"]["pos"], float(cfg["kb"]), float(cfg["r2"]),
+                                cfg["ld"], out, getLogger("hv17", "CRITICAL"))
+            except BaseException as e:  # noqa
+                if isinstance(e, (KeyboardInterrupt, MemoryError)):
+                    raise
                 return {"err": err_kind(e), "cls": type(e).__name__, "msg": str(e)[:160], "table": table}
             rows = []
             with open(out) as f:
@@ -460,6 +519,9 @@ class Clump(Relation):
                "ld=" + cfg["ld"], "kb=" + cfg["kb"]]
         if cfg["snp"]:
             out.append("snpfmt=" + cfg["snp"]["fmt"])
+        if cfg["str"]:
+            out.append("strfmt=" + cfg["str"].get("fmt", "vcf"))
+        out.append("via=" + cfg.get("via", "api"))
         if isinstance(obs, dict) and "ok" in obs:
             rows = obs["ok"]
             out.append(f"clumps={min(len(rows), 5)}")
@@ -553,7 +615,7 @@ class ComputeLDRel(Relation):
     coq_case_type = "dcase"
     coq_model = "model_computeld"
     coq_imports = ["PearsonQ", "C17_Model"]
-    budget = {"quick": 1500, "thorough": 30000}
+    budget = {"quick": 2500, "thorough": 40000}
     max_cases_per_shard = 300
     timeout_per_case = 30
     anchors = [("haptools/clump.py", "ComputeLD"), ("haptools/clump.py", "_FilterGts"),
@@ -580,24 +642,37 @@ class ComputeLDRel(Relation):
         import haptools.clump as cl
         from haptools.logging import getLogger
 
+        roots = []
+        stats0 = cl._CalcLDStats
+
+        def stats(f00, p, q, gt_counts, n):
+            fr = Fraction(float(f00))
+            roots.append([str(fr.numerator), str(fr.denominator)])
+            return stats0(f00, p, q, gt_counts, n)
+
+        cl._CalcLDStats = stats
         try:
             _, r2 = cl.ComputeLD(np.array(inp["cand"], dtype=np.uint8).reshape(-1, 2),
                                  np.array(inp["idx"], dtype=np.uint8).reshape(-1, 2), inp["ld"],
                                  getLogger("hv17", "CRITICAL"))
         except Exception as e:  # noqa
             return {"err": err_kind(e), "cls": type(e).__name__, "msg": str(e)[:160]}
+        finally:
+            cl._CalcLDStats = stats0
         r2 = float(r2)
         if r2 != r2:
-            return {"ok": None}
+            return {"ok": None, "roots": roots}
         fr = Fraction(r2)
-        return {"ok": [str(fr.numerator), str(fr.denominator)], "float": r2}
+        return {"ok": [str(fr.numerator), str(fr.denominator)], "float": r2, "roots": roots}
 
     def encode(self, inp, obs):
         pr = lambda c: f"({L.z(c[0])}, {L.z(c[1])})"
         if not isinstance(obs, dict) or ("ok" not in obs and "err" not in obs):
             obs = {"err": (obs or {}).get("kind", 99)}
-        o = L.res(obs, lambda v: L.opt(v, lambda x: f"(Qmake {L.z(int(x[0]))} {int(x[1])}%positive)"))
-        return f"(mkd {L.lst(inp['cand'], pr)} {L.lst(inp['idx'], pr)} {L.b(inp['ld'] == 'Exact')} {o})"
+        qm = lambda x: f"(Qmake {L.z(int(x[0]))} {int(x[1])}%positive)"
+        o = L.res(obs, lambda v: L.opt(v, qm))
+        return (f"(mkd {L.lst(inp['cand'], pr)} {L.lst(inp['idx'], pr)} {L.b(inp['ld'] == 'Exact')} {o} "
+                f"{L.lst(obs.get('roots') or [], qm)})")
 
     def _valid(self, inp):
         return [(a[0] + a[1], b[0] + b[1]) for a, b in zip(inp["cand"], inp["idx"]) if max(a) < 254 and max(b) < 254]
@@ -621,6 +696,8 @@ class ComputeLDRel(Relation):
             out.append(f"err:{obs.get('cls')}")
         if isinstance(obs, dict) and obs.get("float") in (0.0, 1.0):
             out.append(f"r2={obs['float']}")
+        if isinstance(obs, dict) and inp["ld"] == "Exact" and "ok" in obs and obs["ok"] is not None:
+            out.append(f"roots-in-range={len(obs.get('roots') or [])}")
         return out
 
     def shrink(self, inp):
